@@ -255,6 +255,10 @@ def explore(ctx):
                                 'nonpositive_spikes': [3, 7] if i % 2 else [0],
                                 # feature tables as wide as / narrower than the number of components (2)
                                 'n_loc': [None, 2, None, 1][(i // 3) % 4],
+                                # raw channels dropped / permuted: peak channels are template columns, not
+                                # raw-file channel numbers; KiloSort2's templates_ind.npy lying around
+                                'channel_map': ['identity', 'sub', 'perm'][(i // 5) % 3],
+                                'ks2_templates_ind': (i // 7) % 2 == 1,
                                 'template_dtype': 'float64' if (i // 2) % 2 else 'float32',
                                 # a channel that is not the largest carries a constant offset
                                 'dc_offset': [[0, 1, 40.0], [2, 0, 40.0], [3, 4, -40.0]] if (i // 4) % 2 else None}
